@@ -1259,7 +1259,8 @@ def exercise(ctx, name, seed, kind, others=()):
         if not ok:
             problems.append(("seed", "%s is not reproducible under np.random.seed(12345)" % name))
     # representation independence [T only]
-    if c.dgm_args and res1[0] == "ok":
+    if c.dgm_args and res1[0] == "ok" and not any(p[0] in ("repeat", "history", "fresh") for p in problems):
+        # (a call whose result already differs between repeats cannot be compared across forms)
         base = None
         for form in ("float", "int", "list") + tuple(NARROW_FORMS):
             cf = _build(name, seed)
